@@ -139,6 +139,15 @@ def run(prop):
         okt, _, outt = common.prove(chk, prop, regen.TABLE_MODULES, regen.TABLE_THEOREMS[prop])
         proofs_ok = proofs_ok and okt and not terr
         plog += str(terr or "") + outt[-1500:]
+    if prop in regen.TRAVERSAL_THEOREMS:
+        # translator tie for the per-node traversal code (UsedBinders, Uniquify / Subst / Bind, FreeVars / Subst /
+        # Linearizing, fresh_identifier): the fields every impl visits are re-extracted from the working tree and the
+        # models are proved to visit exactly them (lean/Scc/Props/Traversals.lean); no test input needed
+        _, verr = regen.regen(["traversals"])
+        chk.obligation("regen:traversals", "translator", not verr, str(verr)[:400])
+        okv, _, outv = common.prove(chk, prop, regen.TRAVERSAL_MODULES, regen.TRAVERSAL_THEOREMS[prop])
+        proofs_ok = proofs_ok and okv and not verr
+        plog += str(verr or "") + outv[-1500:]
     for o in obl:
         okp, _, out = common.prove(chk, prop, o["modules"], o["theorems"], role=o.get("role", "theorem"))
         proofs_ok = proofs_ok and okp
